@@ -4,7 +4,14 @@ import json, os
 VERIF = os.path.dirname(os.path.dirname(os.path.abspath(__file__)))
 PY = "/venv/bin/python"
 
+NOTE_STD = "Trusted: Coq kernel, translator, extraction (ExtrOcamlBasic only) + OCaml driver with ed25519 oracle tables answered by pyca/cryptography called directly, correspondence harness (generators, wire format, oracles). ed25519/SHA-256/CPython built-ins are modelled or parameters, not verified. Objects overriding dunder methods are outside the value universe."
+TECH_STD = "Coq proof (unbounded, all inputs) + extracted-model/implementation correspondence + independent implementation-level oracle"
+
 CLAIMED = {
+    "C01": ("Coq theorems (props/C01.v, closed, for every ed_verify/sha256 function): whenever the model of verify_signable returns, there are at least threshold entries of the presented signature map, with pairwise distinct keys (distinct also as decoded bytes), each filed under an authorized 64-lower-hex key, well formed for the mode and accepted by the verification primitive over the canonical bytes of exactly the presented payload (resp. SHA-256 of its RFC 4880 framing); an entry counts iff it is such a valid entry, so unauthorized, malformed, mis-spelled entries never count; acceptance is monotone in the threshold. Tie: extracted model vs implementation on exhaustive entry-kind x key-list x threshold x mode products with relation 'implementation accepts => model accepts', plus an independent counting oracle using pyca/cryptography directly.",
+            NOTE_STD + " 'No key counts twice' relies on the Python dict invariant (pairwise distinct keys).", TECH_STD, "5/C01"),
+    "C02": ("Coq theorems (props/C02.v, closed): if threshold distinct entries of the map are valid entries (mode-well-formed, authorized key, primitive accepts) the model of verify_signable returns whatever else the map contains; every entry, junk included, yields a boolean (never an error); accept <=> threshold <= number of counting entries, otherwise SignatureError; the verdict is invariant under permutation of entries and of the key list. Tie: relation 'model accepts => implementation accepts' on the C01 product, re-run under stdout encodings utf-8/ascii/latin-1 and in a process that imported only the authentication module, with junk keys containing non-ASCII text and lone surrogates, and on the shipped fixtures.",
+            NOTE_STD + " OpenPGP header strings below 4 GiB (struct.pack).", TECH_STD, "5/C02"),
     "C15": ("Machine-checked Coq theorems (props/C15.v, closed under the global context) state that each leaf validator of the model accepts exactly its grammar (64/128/40 lower-case hex; raw or OpenPGP entry shape), that decoding is injective on accepted keys, that accepted key lists have pairwise distinct key bytes and that predicate and raising forms agree, for ALL Python values of the modelled universe. The model is tied to /repo on every run: lengths are re-read from the AST (C15_lengths_frozen), and the model's executable definitions (extracted to OCaml, sampled again by vm_compute) are run against the implementation on an exhaustive small-scope product of strings/entries with accept<->accept as relation, next to an independent regex oracle.",
             "Trusted: Coq kernel, translator, extraction (ExtrOcamlBasic only) + driver, correspondence harness; CPython's bytes.fromhex/str.isalnum/str.lower are modelled (validated by the correspondence), not verified. Values outside the universe (objects overriding dunder methods) are not covered.",
             "Coq proof (unbounded, all inputs) + translator-checked constants + extracted-model/implementation correspondence", "5/C15"),
